@@ -67,7 +67,13 @@ func loadKnown() known {
 // build prepares scratch/sim.test from the current tree.
 func build(scratch string) string {
 	mk := filepath.Join(verifDir, "bin", "mkoverlay")
-	if _, err := os.Stat(mk); err != nil {
+	stale := false
+	if bi, err := os.Stat(mk); err == nil {
+		if si, err := os.Stat(filepath.Join(verifDir, "tools", "mkoverlay", "main.go")); err == nil && si.ModTime().After(bi.ModTime()) {
+			stale = true
+		}
+	}
+	if _, err := os.Stat(mk); err != nil || stale {
 		c := exec.Command(goBin, "build", "-o", mk, ".")
 		c.Dir = filepath.Join(verifDir, "tools", "mkoverlay")
 		c.Env = env()
